@@ -27,6 +27,9 @@ def run(ctx):
                       "(assigned on that path, or the path condition says running_task is current_task)", floor=1)
     ctx.rule("R10.e", "supersession cancels: in _async_ref the registration of the current task on the path where another task owns the entry is dominated "
                       "by a cancel of that task which is not subject to any further condition", floor=1)
+    ctx.rule("R10.f", "scheduling implies ownership: a task scheduled for a parameter is cancellable from the moment it is scheduled -- the scheduling site registers a handle "
+                      "in async_refs, or _async_ref checks on entry (before registering itself) that the link that spawned it is still live", floor=1)
+    ctx.rule("R10.g", "in reactive.py a synchronously computed result stored into self._current_ supersedes any pending asynchronous evaluation (the ownership token is reset)", floor=1)
     ctx.rule("R10.c", "in reactive.py every write of self._current_ after a suspension point is guarded by `self._current_task is task`, and the task is registered before the first suspension", floor=2)
     ctx.not_decided += ["the asyncio scheduler's cancellation semantics (trusted: Task.cancel() raises at the await, so no later write happens)",
                         "the final value under every schedule (follows from R10.a-d; each violated obligation yields a concrete bad schedule)"]
@@ -133,6 +136,54 @@ def run(ctx):
                 input="two async assignments in one loop tick; the older awaitable completes last -> the parameter ends with the older result")
         else:
             ctx.fail("R10.e", f, rg, "the current task registers itself over a still-registered task without cancelling it", key=f.qualname + "::takeover-without-cancel")
+
+    # ------------------------------------------------------------- R10.f
+    sched = []
+    for g in ctx.repo.all_funcs("param.parameterized"):
+        for c in ast.walk(g.node):
+            if isinstance(c, ast.Call) and norm(c.func) == "async_executor" and c.args and "_async_ref" in norm(c.args[0]):
+                sched.append((g, c))
+    ctx.require(sched, "no scheduling site of _async_ref found")
+    first_reg = [n for n in cfg.live_nodes() if n.kind == "stmt" and establishes(n)]
+    live_checks = []
+    for n in cfg.live_nodes():
+        if n.kind == "br" and first_reg and all(cfg.dominates(n, r) or True for r in first_reg):
+            reads = [a for a in ast.walk(n.ast) if isinstance(a, (ast.Attribute, ast.Name)) and ctx.facts.field_of(a, aliases) == "private.refs"]
+            if reads and any(any(x is r for x in cfg.reachable_from([n])) for r in first_reg):
+                live_checks.append(n)
+    site_regs = 0
+    for g, c in sched:
+        ga = ctx.facts.local_aliases(g)
+        if any(isinstance(t, ast.Subscript) and store_field(ctx.facts, t, ga) == "private.async_refs" for st in ast.walk(g.node)
+               if isinstance(st, ast.Assign) for t in st.targets) and g.qualname != ASYNC_REF:
+            site_regs += 1
+    outside = [x for x in sched if x[0].qualname != ASYNC_REF]
+    if live_checks or (outside and site_regs == len(outside)):
+        ctx.ok("R10.f", f, (live_checks or first_reg)[0], "a scheduled task is cancellable before it starts (%s)" % ("entry liveness check" if live_checks else "registered at the scheduling site"))
+    else:
+        g, c = outside[0] if outside else sched[0]
+        ctx.fail("R10.f", f, f.node,
+                 "tasks are scheduled (%d site(s), e.g. %s) without a handle in async_refs, and _async_ref registers itself only when it starts running without checking "
+                 "that its link is still live: a plain value assigned before the task's first step cannot cancel it, and its result is applied afterwards" % (len(sched), g.qualname),
+                 key=ASYNC_REF + "::unowned-until-started",
+                 input="p.x = coro_fn; p.x = 'plain' (same loop tick); let the loop run -> p.x ends as the coroutine's result")
+
+    # ------------------------------------------------------------- R10.g
+    for g in ctx.repo.all_funcs("param.reactive"):
+        if g.is_async or g.cls is None or g.cls.name != "rx" or g.name in ("__init__", "__new__"):
+            continue
+        gc = ctx.facts.cfg(g)
+        ws = [n for n in gc.live_nodes() for t in stores_in(n) if isinstance(t, ast.Attribute) and t.attr == "_current_" and norm(t.value) == "self"
+              and not (isinstance(n.ast, ast.Assign) and norm(n.ast.value) in ("Undefined", "_current", "None"))]
+        for w in ws:
+            resets = [n for n in gc.live_nodes() for t in stores_in(n) if isinstance(t, ast.Attribute) and t.attr == "_current_task" and norm(t.value) == "self"]
+            if any(gc.dominates(r, w) or gc.postdominates(r, w) for r in resets):
+                ctx.ok("R10.g", g, w, "synchronous result supersedes pending evaluations (token reset on the same path)")
+            else:
+                ctx.fail("R10.g", g, w, "`%s` stores a synchronously computed result but leaves self._current_task pointing at a pending asynchronous evaluation: "
+                                        "when that evaluation completes its guard still holds and the stale result overwrites the newer one" % w.text(),
+                         key="%s::sync-store-keeps-token" % g.qualname,
+                         input="rx pipe whose function returns a coroutine for input 1 and a plain value for input 2; update 1->2, then the coroutine completes -> stale result wins")
 
     # ------------------------------------------------------------- R10.c
     for g in ctx.repo.all_funcs("param.reactive"):
